@@ -50,6 +50,7 @@ type File struct {
 
 	r                 io.ReaderAt
 	rs                int64
+	next              int64 // offset of the member or directory that follows, 0 if unknown
 	raw               []byte
 	lfh               zipLocalHeader
 	lfhName, lfhExtra []byte
@@ -115,7 +116,22 @@ func (f *File) readDataDesc() error {
 	if desc.Signature != dataDescriptorSignature {
 		return errors.New("data descriptor signature is missing")
 	}
-	if f.UncompressedSize >= uint32Max || f.CompressedSize >= uint32Max || desc.UncompressedSize != uint32(f.UncompressedSize) || desc.CompressedSize != uint32(f.CompressedSize) {
+	wide := f.UncompressedSize >= uint32Max || f.CompressedSize >= uint32Max || desc.UncompressedSize != uint32(f.UncompressedSize) || desc.CompressedSize != uint32(f.CompressedSize)
+	if !wide && f.UncompressedSize == 0 && f.next == pos+dataDescriptor64Len {
+		// A 64-bit descriptor of a member with no content also reads as a
+		// valid 32-bit one (the upper half of its compressed size lands on
+		// the uncompressed size). Here exactly 8 more bytes come before
+		// whatever follows the member: it is the 64-bit form if they hold
+		// its uncompressed size.
+		if _, err := f.r.ReadAt(f.ddb[dataDescriptorLen:], pos+dataDescriptorLen); err != nil {
+			return err
+		}
+		if binary.LittleEndian.Uint64(f.ddb[dataDescriptorLen:]) == 0 {
+			f.CRC32 = desc.CRC32
+			return nil
+		}
+	}
+	if wide {
 		// 64-bit
 		if _, err := f.r.ReadAt(f.ddb[dataDescriptorLen:], pos+dataDescriptorLen); err != nil {
 			return err
